@@ -212,6 +212,15 @@ def cases(tier, seed):
         if sum(st["sizes"]) == 3 and len(st["sizes"]) == 1 and tier == "quick":
             continue
         sym.append(dict(st, repr="symbolic", symbolic=True, symstyle="complex", vset=0, total=3))
+    # generic floating-point energies (not on any grid) with default and loosened `atol`: the identities are
+    # recomputed in floating point from the returned series and the input (residual bound 1e-10, far below atol)
+    for sizes in ((2, 1), (2, 2), (1, 2, 1), (3,)):
+        nb = len(sizes)
+        for fd in ([], [0], list(range(nb))):
+            for atol in (None, 1e-6, 1e-4):
+                for rep in ("dense", "csr"):
+                    out.append(dict(floatgen=True, sizes=list(sizes), fd=fd, atol=atol, repr=rep, total=3, k=1, E=[], support=[[1], [2]],
+                                    pattern="dense", mask=None, hermitian=True, vset=0))
     out = sym + out  # the longest jobs first
     for c in out:
         c["seed"] = seed
@@ -221,7 +230,73 @@ def cases(tier, seed):
     return out
 
 
+def run_floatgen(case, props):
+    import numpy as np
+    from scipy import sparse
+
+    from pymablock import block_diagonalize
+    from pymablock.series import one, zero
+
+    sizes = case["sizes"]
+    N, nb = sum(sizes), len(sizes)
+    rng = np.random.default_rng([case["seed"], N, nb, 313])
+    E = np.sort(rng.uniform(0.0, 10.0, N)) + 3.0 * np.arange(N)  # gaps >= 3, digits all the way down
+    H = {0: np.diag(E)}
+    for n in (1, 2):
+        a = rng.normal(size=(N, N)) + 1j * rng.normal(size=(N, N))
+        H[n] = a + a.conj().T
+    conv = (lambda m: sparse.csr_array(m)) if case["repr"] == "csr" else (lambda m: np.array(m))
+    kwargs = dict(subspace_indices=lattice.block_of(sizes))
+    if case["fd"]:
+        kwargs["fully_diagonalize"] = tuple(case["fd"])
+    elif nb == 1:
+        kwargs.pop("subspace_indices")
+    if case["atol"] is not None:
+        kwargs["atol"] = case["atol"]
+    outs = block_diagonalize({(0,): conv(H[0]), (1,): conv(H[1]), (2,): conv(H[2])}, **kwargs)
+    off = lattice.offsets(sizes)
+    blk = lattice.block_of(sizes)
+
+    def full(s, n):
+        m = np.zeros((N, N), dtype=complex)
+        for i in range(nb):
+            for j in range(nb):
+                v = s[i, j, n]
+                if v is zero:
+                    continue
+                v = np.eye(sizes[i]) if v is one else (v.toarray() if hasattr(v, "toarray") else np.asarray(v))
+                m[off[i]:off[i + 1], off[j]:off[j + 1]] = v
+        return m
+
+    total = case["total"]
+    Ht = [full(outs[0], n) for n in range(total + 1)]
+    U = [full(outs[1], n) for n in range(total + 1)]
+    G = [full(outs[2], n) for n in range(total + 1)]
+    fdset = set(case["fd"]) if case["fd"] else ({0} if nb == 1 else set())
+    kept = np.array([[blk[i] == blk[j] and (i == j or blk[i] not in fdset) for j in range(N)] for i in range(N)])
+    V = []
+    scale = max(1.0, max(np.abs(m).max() for m in U + Ht))
+    for n in range(total + 1):
+        P = sum(G[a] @ H[b] @ U[n - a - b] for a in range(n + 1) for b in range(n - a + 1) if b in H)
+        if "C01" in props:
+            if np.abs((P - Ht[n])[kept]).max(initial=0) > 1e-10 * scale:
+                V.append(f"generic float energies, atol={case['atol']}: (U† H U)[{n}] differs from H_tilde on kept elements by {np.abs((P - Ht[n])[kept]).max():.2e}")
+            if np.abs(P[~kept]).max(initial=0) > 1e-10 * scale:
+                V.append(f"generic float energies, atol={case['atol']}: (U† H U)[{n}] is non-zero on eliminated elements ({np.abs(P[~kept]).max():.2e})")
+        if "C02" in props:
+            UU = sum(G[a] @ U[n - a] for a in range(n + 1))
+            want = np.eye(N) if n == 0 else np.zeros((N, N))
+            if np.abs(UU - want).max() > 1e-10 * scale or np.abs(G[n] - U[n].conj().T).max() > 1e-10 * scale:
+                V.append(f"generic float energies, atol={case['atol']}: unitarity / adjoint relation violated at order {n}")
+    return dict(violations=[dict(what=w, key=None) for w in V[:4]], nontrivial=True, outcome="floatgen-" + ("ok" if not V else "violation"),
+                sample={k_: v_ for k_, v_ in case.items() if k_ in ("sizes", "fd", "atol", "repr", "total")} | {"floatgen": True})
+
+
 def run_props(case, props):
+    if case.get("floatgen"):
+        if not ({"C01", "C02"} & set(props)):
+            return dict(violations=[], nontrivial=False, outcome="floatgen-not-applicable", sample={"floatgen": True})
+        return run_floatgen(case, props)
     if case.get("symbolic"):
         from .. import symbolic
         from ..lattice import is_H0_zero_single_block
